@@ -18,13 +18,24 @@ use vharness::*;
 enum Op {
     Ins { id: u64, rel: u64, ts: Vec<u64> },
     Del { id: u64, rel: u64, ts: Vec<u64> },
-    Rule { id: u64, rel: u64 },
+    Rule { id: u64, rel: u64, c: u64 },
+    RemClause { id: u64, rel: u64, idx: usize },
+    DropRule { id: u64, rel: u64 },
+    ClearRule { id: u64, rel: u64 },
+    Replace { id: u64, rel: u64, idx: usize, c: u64 },
     Read { id: u64 },
 }
 impl Op {
     fn id(&self) -> u64 {
         match self {
-            Op::Ins { id, .. } | Op::Del { id, .. } | Op::Rule { id, .. } | Op::Read { id } => *id,
+            Op::Ins { id, .. }
+            | Op::Del { id, .. }
+            | Op::Rule { id, .. }
+            | Op::RemClause { id, .. }
+            | Op::DropRule { id, .. }
+            | Op::ClearRule { id, .. }
+            | Op::Replace { id, .. }
+            | Op::Read { id } => *id,
         }
     }
     fn coq(&self) -> String {
@@ -32,7 +43,13 @@ impl Op {
         match self {
             Op::Ins { id, rel, ts } => format!("(SIns {} {} {})", coq_n(*id as u128), coq_n(*rel as u128), l(ts)),
             Op::Del { id, rel, ts } => format!("(SDel {} {} {})", coq_n(*id as u128), coq_n(*rel as u128), l(ts)),
-            Op::Rule { id, rel } => format!("(SRule {} {})", coq_n(*id as u128), coq_n(*rel as u128)),
+            Op::Rule { id, rel, c } => format!("(SRule {} {} {})", coq_n(*id as u128), coq_n(*rel as u128), coq_n(*c as u128)),
+            Op::RemClause { id, rel, idx } => format!("(SRemClause {} {} {})", coq_n(*id as u128), coq_n(*rel as u128), coq_nat(*idx)),
+            Op::DropRule { id, rel } => format!("(SDropRule {} {})", coq_n(*id as u128), coq_n(*rel as u128)),
+            Op::ClearRule { id, rel } => format!("(SClearRule {} {})", coq_n(*id as u128), coq_n(*rel as u128)),
+            Op::Replace { id, rel, idx, c } => {
+                format!("(SReplace {} {} {} {})", coq_n(*id as u128), coq_n(*rel as u128), coq_nat(*idx), coq_n(*c as u128))
+            }
             Op::Read { id } => format!("(SRead {})", coq_n(*id as u128)),
         }
     }
@@ -40,7 +57,11 @@ impl Op {
         match self {
             Op::Ins { id, rel, ts } => format!("#{id} insert r{rel} {ts:?}"),
             Op::Del { id, rel, ts } => format!("#{id} delete r{rel} {ts:?}"),
-            Op::Rule { id, rel } => format!("#{id} register-rule r{rel}"),
+            Op::Rule { id, rel, c } => format!("#{id} register-clause r{rel} <- b{rel}_{c}"),
+            Op::RemClause { id, rel, idx } => format!("#{id} remove-clause r{rel} index {idx}"),
+            Op::DropRule { id, rel } => format!("#{id} drop-rule r{rel}"),
+            Op::ClearRule { id, rel } => format!("#{id} clear-rule r{rel}"),
+            Op::Replace { id, rel, idx, c } => format!("#{id} replace-clause r{rel} index {idx} with b{rel}_{c}"),
             Op::Read { id } => format!("#{id} read"),
         }
     }
@@ -48,20 +69,43 @@ impl Op {
         match self {
             Op::Ins { .. } => 3,
             Op::Del { .. } | Op::Read { .. } => 2,
-            Op::Rule { .. } => 1,
+            _ => 1,
         }
+    }
+    fn is_catalog(&self) -> bool {
+        matches!(self, Op::Rule { .. } | Op::RemClause { .. } | Op::DropRule { .. } | Op::ClearRule { .. } | Op::Replace { .. })
     }
 }
 
 #[derive(Clone, Debug)]
 struct View {
     facts: Vec<(u64, u64)>,
-    rules: Vec<u64>,
+    /// (rule head, clause) of every clause in the snapshot, sorted
+    rules: Vec<(u64, u64)>,
+    /// for the initial view only: the catalog in registration order (clause order matters for
+    /// index-based operations and cannot be read off a snapshot)
+    cat: Option<Vec<(u64, Vec<u64>)>>,
 }
 impl View {
     fn coq(&self) -> String {
         let f: Vec<String> = self.facts.iter().map(|(r, t)| format!("({}, {})", coq_n(*r as u128), coq_n(*t as u128))).collect();
-        let r: Vec<String> = self.rules.iter().map(|r| coq_n(*r as u128)).collect();
+        if let Some(cat) = &self.cat {
+            let r: Vec<String> = cat
+                .iter()
+                .map(|(h, cs)| format!("({}, {})", coq_n(*h as u128), coq_list(&cs.iter().map(|c| coq_n(*c as u128)).collect::<Vec<_>>())))
+                .collect();
+            return format!("(mkView {} {})", coq_list(&f), coq_list(&r));
+        }
+        // grouped by head, as a catalog
+        let mut heads: Vec<u64> = self.rules.iter().map(|(h, _)| *h).collect();
+        heads.dedup();
+        let r: Vec<String> = heads
+            .iter()
+            .map(|h| {
+                let cs: Vec<String> = self.rules.iter().filter(|(x, _)| x == h).map(|(_, c)| coq_n(*c as u128)).collect();
+                format!("({}, {})", coq_n(*h as u128), coq_list(&cs))
+            })
+            .collect();
         format!("(mkView {} {})", coq_list(&f), coq_list(&r))
     }
 }
@@ -71,6 +115,8 @@ enum Res {
     Ins(u64, u64),
     Del(u64),
     Rule,
+    Rem(bool),
+    ErrRule,
     ErrView,
     View(View),
     Unexpected(String),
@@ -81,6 +127,8 @@ impl Res {
             Res::Ins(a, b) => format!("(RIns {} {})", coq_n(*a as u128), coq_n(*b as u128)),
             Res::Del(a) => format!("(RDel {})", coq_n(*a as u128)),
             Res::Rule => "RRule".into(),
+            Res::Rem(b) => format!("(RRem {})", coq_bool(*b)),
+            Res::ErrRule => "RErrRule".into(),
             Res::ErrView => "RErrView".into(),
             Res::View(v) => format!("(RView {})", v.coq()),
             Res::Unexpected(_) => "(RDel 4294967295%N)".into(),
@@ -110,15 +158,36 @@ fn tuple_id(t: &Tuple) -> u64 {
         _ => u64::MAX,
     }
 }
-fn rule_def(rel: u64) -> RuleDef {
+fn clause(rel: u64, c: u64) -> SerializableRule {
     let v = |s: &str| SerializableTerm::Variable(s.to_string());
-    RuleDef {
-        name: rel_name(rel),
-        rule: SerializableRule {
-            head_relation: rel_name(rel),
-            head_args: vec![v("X"), v("Y")],
-            body: vec![SerializableBodyPred::Atom { relation: format!("b{rel}"), args: vec![v("X"), v("Y")], negated: false }],
-        },
+    SerializableRule {
+        head_relation: rel_name(rel),
+        head_args: vec![v("X"), v("Y")],
+        body: vec![SerializableBodyPred::Atom { relation: format!("b{rel}_{c}"), args: vec![v("X"), v("Y")], negated: false }],
+    }
+}
+fn rule_def(rel: u64, c: u64) -> RuleDef {
+    RuleDef { name: rel_name(rel), rule: clause(rel, c) }
+}
+fn clause_id(r: &inputlayer::ast::Rule) -> Option<(u64, u64)> {
+    let h = rel_id(&r.head.relation)?;
+    for p in &r.body {
+        if let inputlayer::ast::BodyPredicate::Positive(a) = p {
+            if let Some(rest) = a.relation.strip_prefix('b') {
+                if let Some((_, c)) = rest.split_once('_') {
+                    return Some((h, c.parse().ok()?));
+                }
+            }
+        }
+    }
+    None
+}
+fn rule_err(e: StorageError) -> Res {
+    let m = e.to_string();
+    if m.contains("does not exist") || m.contains("out of bounds") {
+        Res::ErrRule
+    } else {
+        Res::Unexpected(m)
     }
 }
 fn view_of(snap: &inputlayer::storage_engine::KnowledgeGraphSnapshot) -> View {
@@ -131,9 +200,9 @@ fn view_of(snap: &inputlayer::storage_engine::KnowledgeGraphSnapshot) -> View {
         }
     }
     facts.sort();
-    let mut rules: Vec<u64> = snap.rules.iter().filter_map(|r| rel_id(&r.head.relation)).collect();
+    let mut rules: Vec<(u64, u64)> = snap.rules.iter().filter_map(clause_id).collect();
     rules.sort();
-    View { facts, rules }
+    View { facts, rules, cat: None }
 }
 
 fn parks(label: &str) -> bool {
@@ -157,6 +226,8 @@ fn label_code(l: &str) -> u64 {
 struct Config20 {
     name: String,
     v0: Vec<(u64, Vec<u64>)>, // initial batches (relation, tuples), inserted sequentially before the threads start
+    /// clauses registered sequentially before the threads start (head, clause), in this order
+    rules0: Vec<(u64, u64)>,
     progs: Vec<Vec<Op>>,
     exhaustive: bool,
     budget: usize,
@@ -180,7 +251,20 @@ fn run_one(cfg: &Config20, choose: &mut dyn FnMut(usize, &[usize]) -> usize) -> 
     for (r, ts) in &cfg.v0 {
         eng.insert_tuples_into(KG, &rel_name(*r), ts.iter().map(|t| tuple_of(*t)).collect()).expect("setup insert");
     }
-    let v0 = view_of(&eng.get_snapshot_for(KG).expect("snap"));
+    let mut cat0: Vec<(u64, Vec<u64>)> = vec![];
+    for (h, c) in &cfg.rules0 {
+        eng.register_rule_in(KG, &rule_def(*h, *c)).expect("setup rule");
+        match cat0.iter_mut().find(|(x, _)| x == h) {
+            Some((_, cs)) => {
+                if !cs.contains(c) {
+                    cs.push(*c)
+                }
+            }
+            None => cat0.push((*h, vec![*c])),
+        }
+    }
+    let mut v0 = view_of(&eng.get_snapshot_for(KG).expect("snap"));
+    v0.cat = Some(cat0);
     let n = cfg.progs.len();
     let results: Vec<Arc<Mutex<Vec<(u64, Res)>>>> = (0..n).map(|_| Arc::new(Mutex::new(vec![]))).collect();
     let mut bodies: Vec<Body> = vec![];
@@ -207,9 +291,25 @@ fn run_one(cfg: &Config20, choose: &mut dyn FnMut(usize, &[usize]) -> usize) -> 
                             Err(e) => Res::Unexpected(e.to_string()),
                         }
                     }
-                    Op::Rule { rel, .. } => match eng.register_rule_in(KG, &rule_def(*rel)) {
+                    Op::Rule { rel, c, .. } => match eng.register_rule_in(KG, &rule_def(*rel, *c)) {
                         Ok(_) => Res::Rule,
                         Err(e) => Res::Unexpected(e.to_string()),
+                    },
+                    Op::RemClause { rel, idx, .. } => match eng.remove_rule_clause_in(KG, &rel_name(*rel), *idx) {
+                        Ok(b) => Res::Rem(b),
+                        Err(e) => rule_err(e),
+                    },
+                    Op::DropRule { rel, .. } => match eng.drop_rule_in(KG, &rel_name(*rel)) {
+                        Ok(()) => Res::Rule,
+                        Err(e) => rule_err(e),
+                    },
+                    Op::ClearRule { rel, .. } => match eng.clear_rule_in(KG, &rel_name(*rel)) {
+                        Ok(()) => Res::Rule,
+                        Err(e) => rule_err(e),
+                    },
+                    Op::Replace { rel, idx, c, .. } => match eng.with_kg_mut(KG, |k| k.replace_rule(&rel_name(*rel), *idx, clause(*rel, *c))) {
+                        Ok(()) => Res::Rule,
+                        Err(e) => rule_err(e),
                     },
                     Op::Read { .. } => match eng.get_snapshot_for(KG) {
                         Ok(snap) => {
@@ -248,7 +348,7 @@ fn apply_order(cfg: &Config20, ex: &Exec) -> Vec<u64> {
                 if let Some(op) = cfg.progs[*t].get(opi[*t]) {
                     match (op, *l) {
                         (Op::Ins { id, .. }, "kg:apply_insert") | (Op::Del { id, .. }, "kg:apply_delete") => order.push(*id),
-                        (Op::Rule { id, .. }, "kg:publish") => order.push(*id),
+                        (o, "kg:publish") if o.is_catalog() => order.push(o.id()),
                         _ => {}
                     }
                 }
@@ -299,7 +399,12 @@ fn gen_config(rng: &mut Rng, idx: usize, per: usize) -> Config20 {
             let op = match c {
                 0..=3 => Op::Ins { id, rel, ts },
                 4..=5 => Op::Del { id, rel, ts },
-                6 => Op::Rule { id, rel },
+                6 => match rng.below(6) {
+                    0..=1 => Op::Rule { id, rel, c: rng.range(1, 3) as u64 },
+                    2..=3 => Op::RemClause { id, rel, idx: rng.below(3) as usize },
+                    4 => Op::DropRule { id, rel },
+                    _ => Op::ClearRule { id, rel },
+                },
                 _ => {
                     has_read = true;
                     Op::Read { id }
@@ -310,7 +415,38 @@ fn gen_config(rng: &mut Rng, idx: usize, per: usize) -> Config20 {
         progs.push(p);
     }
     let exhaustive = interleavings(&progs) <= per as f64;
-    Config20 { name: format!("random-{idx}"), v0, progs, exhaustive, budget: per, seed: rng.next() }
+    let nr = rng.below(4);
+    let rules0: Vec<(u64, u64)> = (0..nr).map(|_| (rng.below(2), rng.range(1, 3) as u64)).collect();
+    Config20 { name: format!("random-{idx}"), v0, rules0, progs, exhaustive, budget: per, seed: rng.next() }
+}
+
+/// one client: a history of rule-catalog operations (multi-clause rules, removal of first / middle /
+/// last clauses, out-of-range indices, drop, clear, replace) with a read after most of them
+fn gen_seq_rules(rng: &mut Rng, idx: usize) -> Config20 {
+    let n = rng.range(5, 12);
+    let mut p = vec![];
+    let mut id = 1u64;
+    let nr = rng.below(5);
+    let rules0: Vec<(u64, u64)> = (0..nr).map(|_| (rng.below(2), rng.range(1, 4) as u64)).collect();
+    for _ in 0..n {
+        let rel = rng.below(2);
+        let op = match rng.below(12) {
+            0..=3 => Op::Rule { id, rel, c: rng.range(1, 4) as u64 },
+            4..=7 => Op::RemClause { id, rel, idx: rng.below(4) as usize },
+            8 => Op::DropRule { id, rel },
+            9 => Op::ClearRule { id, rel },
+            10 => Op::Replace { id, rel, idx: rng.below(3) as usize, c: rng.range(1, 4) as u64 },
+            _ => Op::Ins { id, rel, ts: vec![rng.below(4)] },
+        };
+        id += 1;
+        p.push(op);
+        if rng.chance(3, 4) {
+            p.push(Op::Read { id });
+            id += 1;
+        }
+    }
+    p.push(Op::Read { id });
+    Config20 { name: format!("seq-rules-{idx}"), v0: vec![], rules0, progs: vec![p], exhaustive: true, budget: 1, seed: 0 }
 }
 
 fn corpus() -> Vec<Config20> {
@@ -319,6 +455,7 @@ fn corpus() -> Vec<Config20> {
     let c = |name: &str, v0: Vec<(u64, Vec<u64>)>, progs: Vec<Vec<Op>>| Config20 {
         name: name.to_string(),
         v0,
+        rules0: vec![],
         progs,
         exhaustive: true,
         budget: 1000,
@@ -327,7 +464,59 @@ fn corpus() -> Vec<Config20> {
     vec![
         c("writer-2-batches-vs-reader", vec![], vec![vec![ins(1, 0, &[10, 11, 12]), ins(2, 0, &[13, 14])], vec![Op::Read { id: 3 }, Op::Read { id: 4 }]]),
         c("insert-delete-reader", vec![(0, vec![1, 5])], vec![vec![ins(1, 0, &[1, 2])], vec![del(2, 0, &[1, 5])], vec![Op::Read { id: 3 }]]),
-        c("rule-vs-insert-into-view", vec![], vec![vec![Op::Rule { id: 1, rel: 0 }], vec![ins(2, 0, &[1, 2])], vec![Op::Read { id: 3 }]]),
+        c("rule-vs-insert-into-view", vec![], vec![vec![Op::Rule { id: 1, rel: 0, c: 1 }], vec![ins(2, 0, &[1, 2])], vec![Op::Read { id: 3 }]]),
+        // one client: three clauses, remove the middle one, the (then) last one, the last remaining one; read after each
+        c(
+            "clause-removal-sequential",
+            vec![],
+            vec![vec![
+                Op::Rule { id: 1, rel: 0, c: 1 },
+                Op::Rule { id: 2, rel: 0, c: 2 },
+                Op::Rule { id: 3, rel: 0, c: 3 },
+                Op::Rule { id: 4, rel: 0, c: 2 },
+                Op::Read { id: 5 },
+                Op::RemClause { id: 6, rel: 0, idx: 1 },
+                Op::Read { id: 7 },
+                Op::RemClause { id: 8, rel: 0, idx: 1 },
+                Op::Read { id: 9 },
+                Op::RemClause { id: 10, rel: 0, idx: 3 },
+                Op::RemClause { id: 11, rel: 0, idx: 0 },
+                Op::Read { id: 12 },
+                ins(13, 0, &[1]),
+                Op::RemClause { id: 14, rel: 0, idx: 0 },
+                Op::Read { id: 15 },
+            ]],
+        ),
+        // a client removes the first of two clauses and reads at once, another client reads around it
+        c(
+            "clause-removal-vs-reader",
+            vec![],
+            vec![
+                vec![Op::Rule { id: 1, rel: 0, c: 1 }, Op::Rule { id: 2, rel: 0, c: 2 }, Op::RemClause { id: 3, rel: 0, idx: 0 }, Op::Read { id: 4 }],
+                vec![Op::Read { id: 5 }, Op::Read { id: 6 }],
+            ],
+        ),
+        // replace, clear (the rule stays registered: inserts are still rejected), drop
+        c(
+            "replace-clear-drop",
+            vec![],
+            vec![
+                vec![
+                    Op::Rule { id: 1, rel: 1, c: 1 },
+                    Op::Rule { id: 2, rel: 1, c: 2 },
+                    Op::Replace { id: 3, rel: 1, idx: 0, c: 3 },
+                    Op::Read { id: 4 },
+                    Op::ClearRule { id: 5, rel: 1 },
+                    ins(6, 1, &[1]),
+                    Op::Read { id: 7 },
+                    Op::DropRule { id: 8, rel: 1 },
+                    Op::DropRule { id: 9, rel: 1 },
+                    ins(10, 1, &[2]),
+                    Op::Read { id: 11 },
+                ],
+                vec![Op::Read { id: 12 }],
+            ],
+        ),
         c("two-writers-read-own", vec![], vec![vec![ins(1, 0, &[1, 2]), Op::Read { id: 2 }], vec![ins(3, 0, &[2, 3]), Op::Read { id: 4 }]]),
         c("delete-batch-vs-reader", vec![(0, vec![1, 2, 3, 4])], vec![vec![del(1, 0, &[1, 2, 3]), ins(2, 1, &[7, 7, 8])], vec![Op::Read { id: 3 }, Op::Read { id: 4 }]]),
     ]
@@ -460,10 +649,15 @@ fn main() {
     let mut configs = corpus();
     let corpus_n = configs.len();
     let per = 30usize;
-    // corpus enumerations cost about 800 executions; the rest of the budget goes to random configurations
-    let nrandom = (args.n.saturating_sub(800) / per).max(4);
+    // corpus enumerations cost about 1150 executions; the rest of the budget goes to random configurations
+    // and to sequential rule-catalog histories
+    let nrandom = (args.n.saturating_sub(1150) / per).max(4);
     for i in 0..nrandom {
         configs.push(gen_config(&mut rng, i, per));
+    }
+    let nseq = (args.n / 12).max(40);
+    for i in 0..nseq {
+        configs.push(gen_seq_rules(&mut rng, i));
     }
     let configs = Arc::new(configs);
     let next = Arc::new(AtomicUsize::new(0));
